@@ -31,7 +31,8 @@ ERROR awkward_ListOffsetArray_argsort_strings_impl(
           size_t right_n = stringstops[right] - stringstarts[right];
           const char* left_str = &stringdata[stringstarts[left]];
           const char* right_str = &stringdata[stringstarts[right]];
-          int cmp = strncmp(left_str, right_str, std::min(left_n, right_n));
+          // memcmp, not strncmp: a zero byte is a character like any other
+          int cmp = memcmp(left_str, right_str, std::min(left_n, right_n));
           bool out;
           if (cmp == 0) {
             out = left_n < right_n;
